@@ -31,16 +31,15 @@ CHUNK = 250   # scenarios per trace-validation run (lines are large)
 PAR = 5       # concurrent trace-validation processes (each single-threaded)
 
 
-def pipeline(ctx, scns, n_tlc):
+def pipeline(ctx, scns, tag):
+    """executes one batch of scenarios on the real code and has Trace_DirMount judge every response"""
     for n, d in enumerate(scns):
         d["id"] = n
-    inp = ctx.write_ndjson("scenarios.ndjson", scns)
-    obs = ctx.vh("dir", inp, ctx.path("observations.ndjson"), jobs=12, timeout_ms=30000)
+    inp = ctx.write_ndjson("scenarios-%s.ndjson" % tag, scns)
+    obs = ctx.vh("dir", inp, ctx.path("observations-%s.ndjson" % tag), jobs=12, timeout_ms=30000)
     nreq = sum(len(o["obs"].get("resps", [])) for o in obs)
     ctx.evaluations += nreq + len(obs)
-    ctx.extra["scenarios_from_tlc"] = n_tlc
-    ctx.extra["scenarios_random"] = len(scns) - n_tlc
-    ctx.extra["requests_sent"] = nreq
+    ctx.extra.setdefault("batches", {})[tag] = {"scenarios": len(scns), "requests_sent": nreq}
     # model drift: the implementation-shaped model (b) predicted status/file for every TLC-generated request
     drift = 0
     for o in obs:
@@ -57,15 +56,15 @@ def pipeline(ctx, scns, n_tlc):
                 drift += 1
     if drift:
         ctx.note("%d response(s) differ from the prediction of the implementation-shaped model (model drift, not a violation)" % drift)
-    ctx.extra["model_drift"] = drift
+    ctx.extra["model_drift"] = ctx.extra.get("model_drift", 0) + drift
     # trace validation: the spec judges the mount of every scenario and every response
     verdicts = {}
     def one(c):
         part = obs[c:c + CHUNK]
         sub = copy.copy(ctx)          # private counters: the chunks are validated by concurrent TLC processes
         sub.tlc_runs, sub.states, sub.transitions, sub.traces = [], 0, 0, 0
-        tp = sub.write_ndjson("trace-%d.ndjson" % (c // CHUNK), part)
-        t = sub.validate("Trace_DirMount", "Trace_DirMount.cfg", tp, len(part), name="trace-%d" % (c // CHUNK), heap="3g")
+        tp = sub.write_ndjson("trace-%s-%d.ndjson" % (tag, c // CHUNK), part)
+        t = sub.validate("Trace_DirMount", "Trace_DirMount.cfg", tp, len(part), name="trace-%s-%d" % (tag, c // CHUNK), heap="3g")
         return sub, t
     with ThreadPoolExecutor(max_workers=PAR) as ex:
         for sub, t in ex.map(one, range(0, len(obs), CHUNK)):
@@ -73,16 +72,16 @@ def pipeline(ctx, scns, n_tlc):
             for r in t.lines:
                 if r.get("t") == "VERDICT":
                     verdicts[(r["id"], r["k"])] = r
-    ctx.traces = len(obs)
+    ctx.traces += len(obs)
     nbad = 0
-    classes = {}
+    classes = ctx.extra.setdefault("verdict_classes", {})
     for o in obs:
         ob = o["obs"]
         v0 = verdicts.get((o["id"], 0))
         if v0 is None:
             raise ToolError("Trace_DirMount produced no verdict for scenario id=%s" % o["id"])
         if v0["nt"]:
-            ctx.nontrivial.add(o["id"])
+            ctx.nontrivial.add((tag, o["id"]))
         n = len(ob.get("resps", [])) if ob.get("kind") == "dir" and ob.get("mounted") else 0
         for k in range(0, n + 1):
             v = verdicts.get((o["id"], k))
@@ -102,9 +101,8 @@ def pipeline(ctx, scns, n_tlc):
                                                               ["".join(e) for e in scn["omit"]], "/" + "/".join("".join(s) for s in scn["mount"]),
                                                               {x: ob["resps"][k - 1].get(x) for x in ("status", "mt", "eq", "eqall", "blen", "tail", "cl")}))
             ctx.violation(v["sig"], what[:500], {"scn": small, "obs": (ob["resps"][k - 1] if k else {kk: ob.get(kk) for kk in ("kind", "mounted", "refusal", "msg")})})
-    ctx.extra["verdict_classes"] = dict(sorted(classes.items(), key=lambda kv: -kv[1])[:40])
-    log("[judge] %d scenario(s), %d response(s) judged by Trace_DirMount: %d outside the property" % (len(obs), nreq, nbad))
-    for o in obs[:: max(1, len(obs) // 4)][:4]:
+    log("[judge] %s: %d scenario(s), %d response(s) judged by Trace_DirMount: %d outside the property" % (tag, len(obs), nreq, nbad))
+    for o in obs[:: max(1, len(obs) // 2)][:2]:
         ob = o["obs"]
         ctx.sample({"files": files_str(o["scn"]), "omit": ["".join(e) for e in o["scn"]["omit"]],
                     "mount": "/" + "/".join("".join(s) for s in o["scn"]["mount"]), "mounted": ob.get("mounted"),
@@ -119,27 +117,36 @@ def files_str(scn):
 def run(ctx):
     ctx.build_harness()
     q = ctx.quick
-    # (a)+(b): the implementation-shaped model refines the oracle on every request of every scenario, deviations named
-    if q:
-        g = ctx.tlc("DirMountGen", "Gen_DirMount.cfg", workers=8, timeout=600)            # INVARIANTS Refines Emit
-    else:
-        ctx.tlc("DirMountGen", "MC_DirMount_deep.cfg", workers=8, timeout=1500, coverage=False)
-        ctx.tlc("DirMountGen", "MC_DirMount_fixed.cfg", workers=8, timeout=600)           # the proposed repairs need no deviation
-        g = ctx.tlc("DirMountGen", "Gen_DirMount_deep.cfg", workers=8, timeout=1500)
+    # (a)+(b) and generation in one TLC run per profile: INVARIANTS Refines Emit — on every state (= scenario) the
+    # implementation-shaped model must refine the oracle on every request (deviations named), then the scenario is printed.
+    # (MC_DirMount*.cfg are the same runs without emission.)
+    gens = ["Gen_DirMount.cfg"] if q else ["Gen_DirMount_deep.cfg", "Gen_DirMount_deep3.cfg"]
     # non-vacuity: without the named deviations / with the wrong sibling order TLC finds counterexamples
     o1 = ctx.tlc("DirMountGen", "MC_DirMount_nodev.cfg", workers=2, expect_violation=True, quiet=True)
     o2 = ctx.tlc("DirMountGen", "MC_DirMount_fwdsort.cfg", workers=4, expect_violation=True, quiet=True)
     ctx.extra["nonvacuity"] = {"KnownDeviations={}": str(o1.violation), "SORT=forward": str(o2.violation)}
-    if not g.lines:
-        raise ToolError("Gen_DirMount generated no scenario")
-    scns = list(g.lines)
-    n_tlc = len(scns)
+    if not q:
+        ctx.tlc("DirMountGen", "MC_DirMount_fixed.cfg", workers=8, timeout=600)           # the proposed repairs need no deviation
+    seen = set()
+    for cfg in gens:
+        g = ctx.tlc("DirMountGen", cfg, workers=8, timeout=1500)
+        if not g.lines:
+            raise ToolError("%s generated no scenario" % cfg)
+        scns = []
+        for d in g.lines:
+            key = json.dumps([d["mount"], d["omit"], d["files"]])
+            if key not in seen:
+                seen.add(key); scns.append(d)
+        g.lines = None
+        pipeline(ctx, scns, cfg.replace("Gen_DirMount", "tlc").replace(".cfg", ""))
     rp = ctx.path("random.ndjson")
     ctx.vh_gen("dir", rp, 300 if q else 6000)
+    scns = []
     for l in open(rp):
         d = json.loads(l); d["random"] = 1
         scns.append(d)
-    pipeline(ctx, scns, n_tlc)
+    pipeline(ctx, scns, "random")
+    ctx.extra["verdict_classes"] = dict(sorted(ctx.extra.get("verdict_classes", {}).items(), key=lambda kv: -kv[1])[:40])
     return finish(ctx, rule=RULE, exhaustive=True, assumptions=ASSUMPTIONS, trusted=TRUSTED)
 
 
